@@ -6,6 +6,7 @@
   implementation (EasyMl/Model/Tensor.lean) and the specification (EasyMl/Spec/Tensor.lean).
 -/
 import EasyMl.Lemmas.Tensor
+import EasyMl.Lemmas.Mappings
 
 namespace EasyMl.C01
 open EasyMl EasyMl.Spec
@@ -52,6 +53,280 @@ example :
     ∃ t, Tensor.tryFrom [("a", 2), ("b", 3), ("c", 2)] (List.range 12) = some t ∧
       t.offset [1, 2, 1] = some 11 := by
   refine ⟨_, rfl, ?_⟩
+  decide
+
+/-! ### constructor validation -/
+
+/-- `dimensions::has_duplicates` answers "some name occurs twice". -/
+theorem hasDuplicates_iff (names : List ν) : hasDuplicates names = true ↔ ¬ names.Nodup :=
+  EasyMl.hasDuplicates_iff names
+
+/-- `Tensor::try_from` (and `Tensor::from`, which panics on the other inputs) accepts exactly:
+    element count = product of lengths, names unique, every length ≥ 1 — and then stores the data
+    and shape unchanged with row-major strides. -/
+theorem from_validates (shape : Shape ν) (data : List α) :
+    (∃ t, Tensor.tryFrom shape data = some t) ↔
+      data.length = elements shape ∧ (shape.map (·.1)).Nodup ∧ ∀ d ∈ shape, 1 ≤ d.2 := by
+  constructor
+  · rintro ⟨t, ht⟩; exact ((tryFrom_eq_some_iff shape data t).1 ht).1
+  · intro h; exact ⟨_, (tryFrom_eq_some_iff shape data _).2 ⟨h, rfl⟩⟩
+
+/-- the same, in the form the driver evaluates as the specification's verdict -/
+theorem from_accepts_iff (shape : Shape ν) (data : List α) :
+    (Tensor.tryFrom shape data).isSome = decide (Accepts shape data.length) := by
+  rw [Bool.eq_iff_iff, decide_eq_true_iff, Option.isSome_iff_exists]
+  exact from_validates shape data
+
+theorem from_fields (shape : Shape ν) (data : List α) (t : Tensor ν α)
+    (ht : Tensor.tryFrom shape data = some t) :
+    t.data = data ∧ t.shape = shape ∧ t.strides = computeStrides shape := by
+  obtain ⟨_, rfl⟩ := (tryFrom_eq_some_iff shape data t).1 ht
+  exact ⟨rfl, rfl, rfl⟩
+
+/-- Non-vacuity / error branches: the three rejections and an acceptance. -/
+example : Tensor.tryFrom [("a", 2), ("b", 3)] (List.range 5) = none := by decide
+example : Tensor.tryFrom [("a", 2), ("a", 3)] (List.range 6) = none := by decide
+example : Tensor.tryFrom [("a", 2), ("b", 0)] ([] : List Nat) = none := by decide
+example : (Tensor.tryFrom [("a", 2), ("b", 3)] (List.range 6)).isSome = true := by decide
+
+/-! ### `DimensionMappings` -/
+
+/-- For a source shape with unique names, `DimensionMappings::new` succeeds exactly on the
+    permutations of the source names. -/
+theorem mappings_new_some_iff_perm (source : Shape ν) (requested : List ν)
+    (hnd : (source.map (·.1)).Nodup) :
+    (∃ m, DimensionMappings.new source requested = some m) ↔ requested.Perm (source.map (·.1)) :=
+  ⟨fun ⟨m, hm⟩ => perm_of_new source requested m hnd hm,
+   fun hp => ⟨_, new_of_perm source requested hnd hp⟩⟩
+
+/-- … in particular a name list with a repeated name is rejected … -/
+theorem mappings_new_rejects_repeated (source : Shape ν) (requested : List ν)
+    (hnd : (source.map (·.1)).Nodup) (hrep : ¬ requested.Nodup) :
+    DimensionMappings.new source requested = none := by
+  cases h : DimensionMappings.new source requested with
+  | none => rfl
+  | some m => exact absurd ((perm_of_new source requested m hnd h).nodup_iff.2 hnd) hrep
+
+/-- … and so is one with a name the tensor does not have. -/
+theorem mappings_new_rejects_unknown (source : Shape ν) (requested : List ν) (n : ν)
+    (hnd : (source.map (·.1)).Nodup) (hn : n ∈ requested) (hunk : n ∉ source.map (·.1)) :
+    DimensionMappings.new source requested = none := by
+  cases h : DimensionMappings.new source requested with
+  | none => rfl
+  | some m => exact absurd ((perm_of_new source requested m hnd h).mem_iff.1 hn) hunk
+
+/-- The tables: `source_to_requested[d]` is the position of the source's `d`-th name in the
+    requested list, `requested_to_source[d]` the position of the `d`-th requested name in the
+    source. -/
+theorem mappings_tables (source : Shape ν) (requested : List ν) (m : DimensionMappings)
+    (hnd : (source.map (·.1)).Nodup) (hm : DimensionMappings.new source requested = some m) :
+    m.sourceToRequested = (source.map (·.1)).map (requested.idxOf ·) ∧
+    m.requestedToSource = requested.map ((source.map (·.1)).idxOf ·) := by
+  have hp := perm_of_new source requested m hnd hm
+  rw [new_of_perm source requested hnd hp] at hm
+  simp only [Option.some.injEq] at hm
+  subst hm
+  exact ⟨rfl, rfl⟩
+
+/-- The two tables are permutations of `0..D-1` and mutually inverse. -/
+theorem mappings_inverse (source : Shape ν) (requested : List ν) (m : DimensionMappings)
+    (hnd : (source.map (·.1)).Nodup) (hm : DimensionMappings.new source requested = some m) :
+    m.sourceToRequested.Perm (List.range source.length) ∧
+    m.requestedToSource.Perm (List.range source.length) ∧
+    (∀ d, d < source.length →
+      (m.sourceToRequested[d]?).bind (fun k => m.requestedToSource[k]?) = some d) ∧
+    (∀ d, d < source.length →
+      (m.requestedToSource[d]?).bind (fun k => m.sourceToRequested[k]?) = some d) := by
+  have hp := perm_of_new source requested m hnd hm
+  have hrn : requested.Nodup := hp.nodup_iff.2 hnd
+  have hlen : requested.length = source.length := by simpa using hp.length_eq
+  obtain ⟨h1, h2⟩ := mappings_tables source requested m hnd hm
+  rw [h1, h2]
+  refine ⟨?_, ?_, ?_, ?_⟩
+  · simpa [hlen] using idxOf_table_perm_range (source.map (·.1)) requested hnd hrn hp.symm
+  · simpa using idxOf_table_perm_range requested (source.map (·.1)) hrn hnd hp
+  · intro d hd
+    exact idxOf_tables_inverse (source.map (·.1)) requested hnd hp.symm d (by simpa using hd)
+  · intro d hd
+    exact idxOf_tables_inverse requested (source.map (·.1)) hrn hp d (by omega)
+
+/-- Non-vacuity: a non-involutive permutation (the two tables differ), and rejections. -/
+example : DimensionMappings.new [("x", 2), ("y", 3), ("z", 4)] ["z", "x", "y"] =
+    some { sourceToRequested := [1, 2, 0], requestedToSource := [2, 0, 1] } := by decide
+example : DimensionMappings.new [("x", 2), ("y", 3), ("z", 4)] ["x", "x", "y"] = none := by decide
+example : DimensionMappings.new [("x", 2), ("y", 3), ("z", 4)] ["x", "y", "w"] = none := by decide
+
+/-! ### access through an ordering of the names -/
+
+/-- `index_by` rejects every name list that is not a permutation of the tensor's names. -/
+theorem indexBy_some_iff_perm (shape : Shape ν) (data : List α) (t : Tensor ν α) (names : List ν)
+    (ht : Tensor.tryFrom shape data = some t) :
+    (∃ a, t.indexBy names = some a) ↔ names.Perm (shape.map (·.1)) := by
+  obtain ⟨⟨_, hnd, _⟩, rfl⟩ := (tryFrom_eq_some_iff shape data t).1 ht
+  constructor
+  · rintro ⟨a, ha⟩; exact (indexBy_eq_some shape data _ names a ht ha).1
+  · intro hp
+    have h := new_of_perm shape names hnd hp
+    exact ⟨_, by unfold Tensor.indexBy; simp only [h]; rfl⟩
+
+/-- the same, in the form the driver evaluates as the specification's verdict -/
+theorem indexBy_isSome_eq (shape : Shape ν) (data : List α) (t : Tensor ν α) (names : List ν)
+    (ht : Tensor.tryFrom shape data = some t) :
+    (t.indexBy names).isSome = decide (IsOrdering shape names) := by
+  rw [Bool.eq_iff_iff, decide_eq_true_iff, Option.isSome_iff_exists]
+  exact indexBy_some_iff_perm shape data t names ht
+
+/-- The shape reported for an ordering is the spec's: each requested name with its length in
+    the tensor … -/
+theorem access_shape_eq [Inhabited ν] (shape : Shape ν) (data : List α) (t : Tensor ν α)
+    (names : List ν) (a : Access ν α) (ht : Tensor.tryFrom shape data = some t)
+    (ha : t.indexBy names = some a) : a.shape = shapeFor shape names := by
+  obtain ⟨hp, rfl⟩ := indexBy_eq_some shape data t names a ht ha
+  obtain ⟨_, rfl⟩ := (tryFrom_eq_some_iff shape data t).1 ht
+  exact mapShapeToRequested_eq_shapeFor shape names (fun n hn => hp.mem_iff.1 hn) _
+
+/-- … which is the tensor's shape permuted the same way: its names are the requested names in
+    the requested order and it is a permutation of the tensor's shape. -/
+theorem access_shape_perm [Inhabited ν] (shape : Shape ν) (data : List α) (t : Tensor ν α)
+    (names : List ν) (a : Access ν α) (ht : Tensor.tryFrom shape data = some t)
+    (ha : t.indexBy names = some a) : a.shape.map (·.1) = names ∧ a.shape.Perm shape := by
+  rw [access_shape_eq shape data t names a ht ha]
+  obtain ⟨hp, _⟩ := indexBy_eq_some shape data t names a ht ha
+  obtain ⟨⟨_, hnd, _⟩, _⟩ := (tryFrom_eq_some_iff shape data t).1 ht
+  constructor
+  · simp [shapeFor, List.map_map, Function.comp_def]
+  · have h1 : (shapeFor shape names).Perm (shapeFor shape (shape.map (·.1))) := by
+      unfold shapeFor; exact hp.map _
+    rwa [shapeFor_self shape hnd] at h1
+
+/-- The offset the code-shaped access resolves is the spec's by-name row-major offset. -/
+theorem access_offset_eq_lookupOffset (shape : Shape ν) (data : List α) (t : Tensor ν α)
+    (names : List ν) (a : Access ν α) (ht : Tensor.tryFrom shape data = some t)
+    (ha : t.indexBy names = some a) (idx : List Nat) :
+    a.offset idx = lookupOffset shape names idx := by
+  obtain ⟨_, rfl⟩ := indexBy_eq_some shape data t names a ht ha
+  unfold Access.offset
+  simp only [mapDimensionsToSource_eq_coords]
+  rw [offset_eq_rowMajor shape data t ht _ (coords_length shape names idx)]
+  rfl
+
+/-- Reading through any ordering of the names returns exactly the element whose per-dimension
+    coordinates match by name (absent when the spec says absent). -/
+theorem access_get_eq_lookupByName (shape : Shape ν) (data : List α) (t : Tensor ν α)
+    (names : List ν) (a : Access ν α) (ht : Tensor.tryFrom shape data = some t)
+    (ha : t.indexBy names = some a) (idx : List Nat) :
+    a.get idx = lookupByName shape data names idx := by
+  have h := access_offset_eq_lookupOffset shape data t names a ht ha idx
+  obtain ⟨_, rfl⟩ := indexBy_eq_some shape data t names a ht ha
+  obtain ⟨hd, _, _⟩ := from_fields shape data t ht
+  unfold Access.offset at h
+  unfold Access.get Tensor.get lookupByName
+  simp only at h ⊢
+  rw [h, hd]
+  cases lookupOffset shape names idx <;> rfl
+
+/-- Present ⇔ in bounds: the accessors report an element exactly when every coordinate of the
+    index tuple is below the length of the dimension named at its position (the lengths of the
+    shape reported for that ordering); one-past-the-end and `usize::MAX` coordinates are absent. -/
+theorem access_get_isSome_iff [Inhabited ν] (shape : Shape ν) (data : List α) (t : Tensor ν α)
+    (names : List ν) (a : Access ν α) (ht : Tensor.tryFrom shape data = some t)
+    (ha : t.indexBy names = some a) (idx : List Nat) (hlen : idx.length = names.length) :
+    (a.get idx).isSome = inBounds (a.shape.map (·.2)) idx := by
+  rw [access_get_eq_lookupByName shape data t names a ht ha idx,
+    access_shape_eq shape data t names a ht ha]
+  obtain ⟨hp, _⟩ := indexBy_eq_some shape data t names a ht ha
+  obtain ⟨⟨hcount, hnd, _⟩, _⟩ := (tryFrom_eq_some_iff shape data t).1 ht
+  rw [← lookupOffset_isSome_iff shape names idx hnd hp hlen]
+  unfold lookupByName
+  cases h : lookupOffset shape names idx with
+  | none => rfl
+  | some o =>
+    have := lookupOffset_lt shape names idx o h
+    simp only [Option.isSome_some]
+    rw [List.getElem?_eq_getElem (by omega)]
+    rfl
+
+/-- Distinct index tuples given in one ordering never alias the same element. -/
+theorem access_no_alias (shape : Shape ν) (data : List α) (t : Tensor ν α)
+    (names : List ν) (a : Access ν α) (ht : Tensor.tryFrom shape data = some t)
+    (ha : t.indexBy names = some a) (i j : List Nat) (o : Nat)
+    (hi : i.length = names.length) (hj : j.length = names.length)
+    (hio : a.offset i = some o) (hjo : a.offset j = some o) : i = j := by
+  rw [access_offset_eq_lookupOffset shape data t names a ht ha] at hio hjo
+  obtain ⟨hp, _⟩ := indexBy_eq_some shape data t names a ht ha
+  obtain ⟨⟨_, hnd, _⟩, _⟩ := (tryFrom_eq_some_iff shape data t).1 ht
+  exact lookupOffset_injective shape names i j o hnd hp hi hj hio hjo
+
+/-- Writing through any ordering changes exactly the addressed offset of the data and nothing
+    else (shape, strides and mapping stay); an absent index tuple writes nothing. -/
+theorem access_write_frame (shape : Shape ν) (data : List α) (t : Tensor ν α)
+    (names : List ν) (a : Access ν α) (ht : Tensor.tryFrom shape data = some t)
+    (ha : t.indexBy names = some a) (idx : List Nat) (v : α) :
+    a.set idx v = (lookupOffset shape names idx).map fun o =>
+      { a with source := { t with data := data.set o v } } := by
+  have h := access_offset_eq_lookupOffset shape data t names a ht ha idx
+  obtain ⟨_, rfl⟩ := indexBy_eq_some shape data t names a ht ha
+  obtain ⟨⟨hcount, _, _⟩, rfl⟩ := (tryFrom_eq_some_iff shape data t).1 ht
+  unfold Access.offset at h
+  unfold Access.set Tensor.set
+  simp only at h ⊢
+  rw [h]
+  cases ho : lookupOffset shape names idx with
+  | none => rfl
+  | some o =>
+    have := lookupOffset_lt shape names idx o ho
+    simp only [Option.map_some]
+    rw [if_pos (by omega)]
+
+/-- After a write the addressed element reads back the new value and every other index tuple
+    (in the same ordering) reads what it read before. -/
+theorem access_set_get (shape : Shape ν) (data : List α) (t : Tensor ν α)
+    (names : List ν) (a a' : Access ν α) (ht : Tensor.tryFrom shape data = some t)
+    (ha : t.indexBy names = some a) (idx : List Nat) (v : α) (hlen : idx.length = names.length)
+    (hset : a.set idx v = some a') :
+    a'.get idx = some v ∧
+    ∀ idx', idx'.length = names.length → idx' ≠ idx → a'.get idx' = a.get idx' := by
+  rw [access_write_frame shape data t names a ht ha idx v] at hset
+  obtain ⟨hp, ha_eq⟩ := indexBy_eq_some shape data t names a ht ha
+  obtain ⟨⟨hcount, hnd, _⟩, ht_eq⟩ := (tryFrom_eq_some_iff shape data t).1 ht
+  cases ho : lookupOffset shape names idx with
+  | none => simp [ho] at hset
+  | some o =>
+    simp only [ho, Option.map_some, Option.some.injEq] at hset
+    have hlt := lookupOffset_lt shape names idx o ho
+    have key : ∀ idx', a'.get idx' = (lookupOffset shape names idx').bind ((data.set o v)[·]?) := by
+      intro idx'
+      subst hset ha_eq ht_eq
+      have := mapDimensionsToSource_eq_coords shape names idx'
+        (names.map ((shape.map (·.1)).idxOf ·))
+      simp only [Access.get, Tensor.get, Tensor.offset, this]
+      have h2 := offset_eq_rowMajor shape data _ ht _ (coords_length shape names idx')
+      simp only [Tensor.offset] at h2
+      have h2' : getIndexDirect (coords shape names idx') (computeStrides shape) shape =
+          lookupOffset shape names idx' := h2
+      rw [h2']
+      cases lookupOffset shape names idx' <;> rfl
+    constructor
+    · rw [key, ho]; simp [List.getElem?_set, hcount, hlt]
+    · intro idx' hl' hne
+      rw [key, access_get_eq_lookupByName shape data t names a ht ha idx']
+      unfold lookupByName
+      cases ho' : lookupOffset shape names idx' with
+      | none => rfl
+      | some o' =>
+        have : o ≠ o' := by
+          intro e; subst e
+          exact hne (lookupOffset_injective shape names idx' idx o hnd hp hl' hlen ho' ho)
+        simp [List.getElem?_set, this]
+
+/-- Non-vacuity: a 2×3×2 tensor addressed as `c, a, b` (a non-involutive reordering). -/
+example :
+    ∃ t a, Tensor.tryFrom [("a", 2), ("b", 3), ("c", 2)] (List.range 12) = some t ∧
+      t.indexBy ["c", "a", "b"] = some a ∧
+      a.shape = [("c", 2), ("a", 2), ("b", 3)] ∧
+      a.get [1, 0, 2] = some 5 ∧ a.get [2, 0, 0] = none ∧ a.get [0, 0, 3] = none ∧
+      (a.set [1, 0, 2] 99).map (·.source.data) = some [0, 1, 2, 3, 4, 99, 6, 7, 8, 9, 10, 11] := by
+  refine ⟨_, _, rfl, rfl, ?_⟩
   decide
 
 end EasyMl.C01
